@@ -31,9 +31,8 @@ example : StdWF ((render [.section ⟨false, false, false, false, false, false, 
                           .section ⟨true, true, false, false, false, false, []⟩]).map Tok.toG) := by
   unfold StdWF; decide
 
-/-- **the full statement (all trees) is still false of the code** — kernel-checked counterexample for the recorded class
-    `vml-in-std`: a background-image section inside a wrapper writes its VML outside any conditional -/
-example : ¬ StdWF ((render [.wrapper ⟨false, false, [.sec ⟨false, true, false, false, false, false, []⟩]⟩]).map Tok.toG) := by
+/-- a background-image section inside a wrapper (formerly `vml-in-std`: its VML was written outside any conditional) -/
+example : StdWF ((render [.wrapper ⟨false, false, [.sec ⟨false, true, false, false, false, false, []⟩]⟩]).map Tok.toG) := by
   unfold StdWF; decide
 
 end Gomjml.Props.C02
